@@ -412,6 +412,47 @@ def check_lazy_resave(ctx, V, C, name, seed):
     return True
 
 
+def _hist_spec(rng, names):
+    s = U.gen_spec(rng, names, max_log=3)
+    lw, lh = rng.choice([(2, 2), (3, 3), (3, 2), (2, 3), (4, 4), (4, 2), (1, 3), (5, 5)])
+    s.update({'w': 1 << lw, 'h': 1 << lh, 'frames': rng.choice([1, 1, 2]), 'depth': 1 if s['flags'] & 0x4000 else rng.choice([1, 1, 2]),
+              'fill': rng.choice(['top', 'all', 'some']), 'ops': [], 'save_minor': None, 'sheet': [], 'res': s['res'][:1]})
+    if (lw, lh) == (5, 5):
+        s['frames'] = 1; s['depth'] = 1; s['flags'] &= ~0x4000
+    s['_names'] = names
+    return s
+
+
+def check_history(ctx, V, C, spec, ops, record=True):
+    """The property along a history on ONE live object: after every save, cleared mipmaps are the floor average of their
+    parent and the file read back holds what the object holds. Returns (ok, saves, model json)."""
+    inp = {'kind': 'history', 'spec': {k: v for k, v in spec.items() if k != '_names'}, 'ops': ops}
+    try:
+        saves, problems, mj = U.run_history_impl(V, spec, ops)
+    except Exception as e:  # noqa
+        if record:
+            W(ctx, 'history', f'history raised {type(e).__name__}: {e}', inp)
+        return False, [], None
+    if problems and record:
+        f565 = spec['fmt'] in ('RGB565', 'BGR565') or any(o[0] == 'fmt' and o[1] in ('RGB565', 'BGR565') for o in ops)
+        W(ctx, 'history', f'{spec["w"]}x{spec["h"]} {spec["fmt"]}, history {_fmt_ops(ops)}: {problems[0][1]}', inp)
+    return not problems, saves, mj
+
+
+def _fmt_ops(ops):
+    out = []
+    for o in ops:
+        if o[0] == 'set': out.append(f'copy_from{tuple(o[1:4])}')
+        elif o[0] == 'fclear': out.append(f'Frame{tuple(o[1:4])}.clear()')
+        elif o[0] == 'pixel': out.append(f'Frame{tuple(o[1:4])}[{o[4]},{o[5]}]=..')
+        elif o[0] == 'fill': out.append(f'Frame{tuple(o[1:4])}.fill')
+        elif o[0] == 'save': out.append('save()' if o[1] is None else f'save(7.{o[1]})')
+        elif o[0] == 'compute': out.append(f'compute_mipmaps({o[1]})')
+        elif o[0] == 'clearmips': out.append(f'clear_mipmaps({o[1]})')
+        else: out.append(o[0] + (f'={o[1]}' if len(o) > 1 else '()'))
+    return ' ; '.join(out)
+
+
 # ------------------------------------------------------------------ correspondence
 
 def correspond(ctx, drivers):
@@ -678,6 +719,38 @@ def correspond(ctx, drivers):
                              {'len': len(got), 'at': i, 'bytes': got[i:i + 8]}, 'save of a read file')
             else:
                 ctx.disagree({'op': 'resave', 'spec': spec, 'mode': mode}, str(impl)[:80], str(got)[:80], 'save of a read file')
+    # L. histories on ONE live object: save / compute_mipmaps / clear_mipmaps / Frame.clear / edits / load / format changes,
+    #    the model run as a state machine on the same sequence; every save's bytes compared
+    reqs, meta = [], []
+    hrng = random.Random(f'C15-hist:{ctx.seed}')
+    _CACHE['histories'] = []
+    for i in range(ctx.budget(150, 1200)):
+        spec = _hist_spec(hrng, names)
+        ops = U.gen_history(hrng, spec, V)
+        okh, saves, mj = check_history(ctx, V, C, spec, ops)
+        _CACHE['histories'].append((spec, ops))
+        if mj is None:
+            continue
+        dims = {tuple(f['key']): (f['w'], f['h']) for f in mj['frames']}
+        reqs.append({'op': 'history', 'vtf': mj, 'ops': U.history_model_ops(V, spec, ops, dims)})
+        meta.append((spec, ops, saves))
+        ctx.case({'op': 'history', 'spec': {k: v for k, v in spec.items() if k != '_names'}, 'ops': ops}, nontrivial=True, sample_every=83)
+        ctx.count(f'history:len{len(ops)}'); ctx.count(f'history:saves{sum(1 for o in ops if o[0] == "save")}')
+        for o in ops:
+            ctx.count('history-op:' + o[0])
+    for (spec, ops, saves), rep in zip(meta, drv.batch(reqs, timeout=1500)):
+        ctx.traces_vs_impl += 1
+        ms = rep.get('saves', [])
+        canon_i = ['err' if isinstance(x, tuple) else list(x) for x in saves]
+        canon_m = ['err' if 'err' in x else x['bytes'] for x in ms]
+        if canon_i != canon_m:
+            j = next((j for j in range(min(len(canon_i), len(canon_m))) if canon_i[j] != canon_m[j]), min(len(canon_i), len(canon_m)))
+            a = canon_i[j] if j < len(canon_i) else None; b = canon_m[j] if j < len(canon_m) else None
+            if isinstance(a, list) and isinstance(b, list):
+                i = next((i for i in range(min(len(a), len(b))) if a[i] != b[i]), min(len(a), len(b)))
+                a, b = {'len': len(a), 'at': i, 'bytes': a[i:i + 8]}, {'len': len(b), 'at': i, 'bytes': b[i:i + 8]}
+            ctx.disagree({'op': 'history', 'spec': {k: v for k, v in spec.items() if k != '_names'}, 'ops': ops, 'save_no': j},
+                         str(a)[:120], str(b)[:120], 'history on one object: ' + _fmt_ops(ops)[:200])
     # J. readers on edited headers: every value of the two format fields, mipmap / frame / depth counts, flags, version
     reqs, meta = [], []
     bases = []
@@ -740,6 +813,20 @@ def search(ctx):
         rng = ctx.rng
         for i in range(ctx.budget(150, 1500)):
             check_file(ctx, V, C, U.gen_spec(rng, names, max_log=4 if i % 3 else 2))
+    if 'histories' not in _CACHE:
+        hrng = random.Random(f'C15-hist:{ctx.seed}')
+        for i in range(ctx.budget(150, 1200)):
+            spec = _hist_spec(hrng, names)
+            check_history(ctx, V, C, spec, U.gen_history(hrng, spec, V))
+    # the canonical stale-mipmap history on every writable format: save, repaint level 0, clear level 1 by Frame.clear(), save
+    for nm in names:
+        spec = _hist_spec(random.Random(f'canon:{nm}'), names)
+        spec.update({'w': 4, 'h': 4, 'frames': 1, 'depth': 1, 'flags': 0, 'fmt': nm, 'fill': 'top'})
+        check_history(ctx, V, C, spec, [['save', None, 1, True], ['set', 0, 0, 0, 7], ['fclear', 0, 0, 1], ['fclear', 0, 0, 2],
+                                        ['save', None, 1, True]])
+        check_history(ctx, V, C, spec, [['compute', 4], ['fill', 0, 0, 0, [200, 100, 50, 250]], ['fclear', 0, 0, 1],
+                                        ['compute', 4], ['save', None, 1, True]])
+        ctx.count('search:history-canonical')
     # systematic small matrix, independent of the random specs: all sizes x versions, plain and cubemap
     rng = random.Random(f'C15-search:{ctx.seed}')
     for lw in range(0, 4):
@@ -768,6 +855,28 @@ def search(ctx):
                     check_file(ctx, V, C, s)
                 except Exception:  # noqa
                     pass
+    # shrink history witnesses: drop operations while the history still fails
+    for wt in list(ctx.witnesses):
+        if wt['input'].get('kind') != 'history':
+            continue
+        spec = dict(wt['input']['spec']); spec['_names'] = names
+        ops = wt['input']['ops']
+        def hfails(sub):
+            if not sub or sub[-1][0] != 'save':
+                sub = list(sub) + [['save', None, spec['sheetver'], spec['asw']]]
+            try:
+                okh, _, _ = check_history(ctx, V, C, spec, sub, record=False)
+            except Exception:  # noqa
+                return False
+            return not okh
+        if hfails(ops):
+            from common import ddmin
+            small = ddmin(ops, hfails, budget=120)
+            if small and small[-1][0] != 'save':
+                small = small + [['save', None, spec['sheetver'], spec['asw']]]
+            wt['input']['ops'] = small
+            wt['what'] += f' [shrunk to: {_fmt_ops(small)}]'
+        break
     # shrink file witnesses: smallest size / simplest options that still fail with the same key
     seen = set()
     for wt in list(ctx.witnesses):
@@ -806,6 +915,9 @@ def replay(ctx, payload, quiet=False):
         check_file(ctx, V, C, inp['spec'])
     elif kind == 'lazy':
         check_lazy_resave(ctx, V, C, inp['fmt'], inp['seed'])
+    elif kind == 'history':
+        sp = dict(inp['spec']); sp['_names'] = _names(V, C)
+        check_history(ctx, V, C, sp, inp['ops'])
     else:
         print('replay file names a broken obligation/correspondence, no input to replay:', payload.get('broken_obligations'),
               payload.get('disagreements', [])[:1])
